@@ -121,3 +121,133 @@ gave none, so obicsv -o res.csv wrote the table on the standard output, never cr
 		},
 	})
 }
+
+func init() {
+	register(&Rule{
+		ID: "CSVC", Props: []string{"C03", "C02"}, Min: 2,
+		Doc: `"no record is lost between reader and writer": the CSV writer (encoding/csv) never quotes a cell because it starts with '#'. In pkg/obiformats the readers of CSV sequence files — the parser of
+the records and the detector of the format sniffer: the functions building a csv.Reader whose name does not say NGS filter or ecoPCR (those formats do have comment lines) — set no Comment
+character: with Comment = '#' the record >#b2 written by obicsv came back as nothing — obiconvert of that CSV file gave 2 records of 3, exit 0, no warning.`,
+		Run: func(c *Ctx, s *Sink) {
+			c.EachFunc([]string{"pkg/obiformats"}, func(p *packages.Package, fd *ast.FuncDecl) {
+				if rel(p.PkgPath) != "pkg/obiformats" {
+					return
+				}
+				low := strings.ToLower(fd.Name.Name)
+				if strings.Contains(low, "ngsfilter") || strings.Contains(low, "ecopcr") || strings.HasPrefix(low, "_read") && strings.Contains(low, "ngs") {
+					return
+				}
+				info := p.TypesInfo
+				builds := false
+				var bad token.Pos
+				ast.Inspect(fd.Body, func(n ast.Node) bool {
+					switch y := n.(type) {
+					case *ast.CallExpr:
+						if fullName(callee(info, y)) == "encoding/csv.NewReader" {
+							builds = true
+						}
+					case *ast.AssignStmt:
+						for _, l := range y.Lhs {
+							if sel, ok := ast.Unparen(l).(*ast.SelectorExpr); ok && sel.Sel.Name == "Comment" {
+								if t := info.TypeOf(sel.X); t != nil && strings.HasSuffix(t.String(), "encoding/csv.Reader") {
+									bad = y.Pos()
+								}
+							}
+						}
+					}
+					return true
+				})
+				if !builds {
+					return
+				}
+				key := funcName(p, fd) + ":csv-reader:no-comment-character"
+				if bad.IsValid() {
+					s.Fail(nil, key, bad, "the reader of CSV sequence files takes the lines starting with '#' for comments, and the writer does not quote such a cell: the record whose identifier is #b2, written by obicsv, is dropped when the file is read back (2 records of 3, exit 0, no warning)")
+				} else {
+					s.Pass(nil, key, fd.Pos(), "every line of the file is a record")
+				}
+			})
+		},
+	})
+}
+
+func init() {
+	register(&Rule{
+		ID: "TID", Props: []string{"C06", "C02", "C04"}, Min: 2,
+		Doc: `"well-formed FASTA/FASTQ", "read back as the same records", "the in-memory and on-disk modes of obiuniq give the same records": on a title line the identifier ends at the first blank. In the
+functions of pkg/obiformats that print a title line (they write '>' or '@' followed by the identifier), the identifier is not printed as seq.Id() returns it: it goes through a function of the
+package that removes the blanks (it calls strings.Fields / ReplaceAll / Map …). A CSV cell, or a script, can give a record the identifier "my id": written verbatim, the record is read back as
+"my" with its whole annotation object in the definition — obiuniq's on-disk mode (which keeps its chunks as FASTA files) returned a total count of 5 for 10 reads and NA samples, exit 0, where
+--in-memory gave the right answer.`,
+		Run: func(c *Ctx, s *Sink) {
+			p := c.Pkg("pkg/obiformats")
+			if p == nil {
+				s.Undecided(nil, "pkg/obiformats", 0, "package not loaded")
+				return
+			}
+			info := p.TypesInfo
+			// package functions that strip blanks
+			strips := map[string]bool{}
+			for _, f := range p.Syntax {
+				for _, d := range f.Decls {
+					fd, ok := d.(*ast.FuncDecl)
+					if !ok || fd.Body == nil {
+						continue
+					}
+					ast.Inspect(fd.Body, func(n ast.Node) bool {
+						if call, ok := n.(*ast.CallExpr); ok {
+							switch fullName(callee(info, call)) {
+							case "strings.Fields", "strings.ReplaceAll", "strings.Map", "strings.NewReplacer", "strings.FieldsFunc":
+								strips[fd.Name.Name] = true
+							}
+						}
+						return true
+					})
+				}
+			}
+			for _, name := range []string{"FormatFasta", "_formatFastq"} {
+				fd, _ := c.FindFunc("pkg/obiformats", name)
+				key := "pkg/obiformats." + name + ":identifier-without-blank"
+				if fd == nil {
+					s.Undecided(nil, key, 0, "function not found")
+					continue
+				}
+				raw, clean := token.NoPos, false
+				ast.Inspect(fd.Body, func(n ast.Node) bool {
+					call, ok := n.(*ast.CallExpr)
+					if !ok {
+						return true
+					}
+					fn := fullName(callee(info, call))
+					// the calls that produce text: Sprintf / Fprintf / WriteString
+					if !strings.HasPrefix(fn, "fmt.Sprintf") && !strings.HasPrefix(fn, "fmt.Fprintf") && !strings.HasSuffix(fn, ".WriteString") {
+						return true
+					}
+					for _, a := range call.Args {
+						if c2, ok := ast.Unparen(a).(*ast.CallExpr); ok {
+							f2 := callee(info, c2)
+							if f2 == nil {
+								continue
+							}
+							if strings.HasSuffix(fullName(f2), "/pkg/obiseq.(BioSequence).Id") {
+								raw = c2.Pos()
+							}
+							if f2.Pkg() == p.Types && strips[f2.Name()] {
+								clean = true
+							}
+						}
+					}
+					return true
+				})
+				switch {
+				case raw.IsValid():
+					s.Fail(nil, key, raw, "the identifier is printed on the title line as it is: an identifier holding a blank (a CSV cell \"my id\") is read back cut at that blank, its annotations turned into a definition — obiuniq -m sample in its default (on-disk) mode gives a total count of 5 for 10 reads and NA samples, --in-memory the right result")
+				case clean:
+					s.Pass(nil, key, fd.Pos(), "the identifier is printed through a function that removes its blanks")
+				default:
+					s.Undecided(nil, key, fd.Pos(), "no printing of the identifier found")
+				}
+			}
+		},
+	})
+}
